@@ -181,7 +181,7 @@ def conformance(ck, cases, obs, variants, fingerprint, procs=16, sample_every=40
                 rec = {"kind": "render", "case": case, "d": m["d"], "variant": m["variant"], "src": m.get("src"),
                        "expected": m.get("expected"), "real": m.get("real")}
                 ck.violation(rec, f"[{m['variant']}] case {m['case']} data#{m['d']}: {m['what']} :: "
-                                  f"{(m.get('src') or {}).get(case['main'], '')[:300]!r} data={m.get('data')}",
+                                  f"{(m.get('src') or {}).get(case['main'], '')[:200]!r}",
                              fingerprint(m, case))
             if i % sample_every == 0 and jobs[i][1]:
                 c = jobs[i][0]
